@@ -210,18 +210,32 @@ fn apply(fam: Family, idx: usize, honest: &[u8], other: &[u8], seed: u64, set_na
             desc = json!({"kind":"torn_write","first_n_bytes_of_this_key":idx,"rest_from":"another honest key"});
         }
         Family::Pattern => {
-            let (kind, block) = (idx % 4, idx / 4);
-            let (lo, hi) = if block == 0 { (0, x.len()) } else { ((block - 1) * 64, (block * 64).min(x.len())) };
+            // idx < 4*(1+blocks64): the four test patterns on the whole key / each 64-byte block;
+            // beyond that: every constant byte value on the whole key and on each aligned 32-byte block
+            // group the size of one s polynomial (96 bytes for eta=2, 128 for eta=4) inside the s region
+            let n64 = 4 * (1 + x.len().div_ceil(64));
+            let (kind, lo, hi) = if idx < n64 {
+                let (kind, block) = (idx % 4, idx / 4);
+                let (lo, hi) = if block == 0 { (0, x.len()) } else { ((block - 1) * 64, (block * 64).min(x.len())) };
+                (kind, lo, hi)
+            } else {
+                let j = idx - n64;
+                let (value, block) = (j % 256, j / 256);
+                let plen = if set_name == "ml-dsa-65" { 128 } else { 96 }; // 32 * bits per field (eta = 4 : eta = 2)
+                let (lo, hi) = if block == 0 { (0, x.len()) } else { (128 + (block - 1) * plen, (128 + block * plen).min(x.len())) };
+                (4 + value, lo, hi)
+            };
             for i in lo..hi {
                 x[i] = match kind {
                     0 => 0xAA,
                     1 => 0x55,
                     2 => i as u8,
-                    _ => (i - lo) as u8,
+                    3 => (i - lo) as u8,
+                    k => (k - 4) as u8,
                 };
             }
-            let pname = ["0xAA", "0x55", "address-in-data", "ramp"][kind];
-            let bdesc = if block == 0 { json!("whole key") } else { json!([lo, hi]) };
+            let pname = if kind >= 4 { format!("constant byte {:#04x}", kind - 4) } else { ["0xAA", "0x55", "address-in-data", "ramp"][kind].to_string() };
+            let bdesc = if lo == 0 && hi == x.len() { json!("whole key") } else { json!([lo, hi]) };
             desc = json!({"kind":"test_pattern_fill","pattern":pname,"block":bdesc});
         }
         Family::MultiBit => {
@@ -340,7 +354,7 @@ pub fn run(ctx: &Ctx) -> i32 {
                 (Family::Lost, 2),
                 (Family::Torn, n),
                 (Family::MultiBit, multi_per_key),
-                (Family::Pattern, 4 * (1 + n.div_ceil(64))),
+                (Family::Pattern, 4 * (1 + n.div_ceil(64)) + 256 * (1 + (set.info().k + set.info().l))),
             ] {
                 let start = if fam == Family::Torn { 1 } else { 0 };
                 let mut lo = start;
@@ -417,7 +431,7 @@ pub fn run(ctx: &Ctx) -> i32 {
         level: "fault_enumeration",
         evaluations: evals,
         signatures: sigs.into_iter().collect(),
-        rule: "Per seeded honest private key, serialised to the store: every single-bit flip of the SK_LEN bytes; stuck-at 0x00 and 0xFF at every byte; lost write (all 0x00 / all 0xFF); torn write against another honest key at every byte boundary; memory-test pattern fills (0xAA, 0x55, address-in-data, ramp) of the whole key and of every aligned 64-byte block; 2000 seeded multi-bit rots (2..8 flips, biased to the secret-vector region). Oracle, both directions: try_from_bytes is Err iff the layout model finds an s1/s2 field > 2*eta; in the checked flavour every accepted key is also re-serialised and must not panic. A case is distinct by (set, fault family, region of the fault, model verdict incl. vector and out-of-range value, outcome). The property's own partition (field index x out-of-range value) is counted separately as partition cells.".into(),
+        rule: "Per seeded honest private key, serialised to the store: every single-bit flip of the SK_LEN bytes; stuck-at 0x00 and 0xFF at every byte; lost write (all 0x00 / all 0xFF); torn write against another honest key at every byte boundary; memory-test pattern fills (0xAA, 0x55, address-in-data, ramp) of the whole key and of every aligned 64-byte block, and every constant byte value on the whole key and on each secret polynomial's block (a stuck data bus); 2000 seeded multi-bit rots (2..8 flips, biased to the secret-vector region). Oracle, both directions: try_from_bytes is Err iff the layout model finds an s1/s2 field > 2*eta; in the checked flavour every accepted key is also re-serialised and must not panic. A case is distinct by (set, fault family, region of the fault, model verdict incl. vector and out-of-range value, outcome). The property's own partition (field index x out-of-range value) is counted separately as partition cells.".into(),
         samples,
         exhaustive: false,
         extra: json!({
